@@ -416,6 +416,9 @@ def handleFold : List String → Option String
   | ["conv", d, a] => do
       let d ← parseTy d; let a ← a.toInt?
       pure (match Fold.phConvInt d a with | some n => s!"some {n}" | none => "none")
+  | ["opconv", t, bits] => do
+      let t ← parseTy t; let b ← bits.toNat?
+      pure (match Fold.foldOperandFromFloat Arith.floatOps t (Float.ofBits b.toUInt64) with | some n => s!"some {n}" | none => "none")
   | _ => none
 
 /-- symbolic stream: `I <opcode> <nargs> (B <hex> | L <cp>)…` | `K <cp>` | `M <kind>` -/
